@@ -17,6 +17,7 @@ Line protocol of the C07 model (see harness/src/props/c07.rs):
 * `vint32_src <n>` → hex of the bytes of the rs2lean translation of serialize_vint_u32
 * `vint32_enc <n>` (serialize_vint_u32) → hex; `vint32_dec <hex>` (read_u32_vint_no_advance) → `<n> <len>` | `err`
 * `recycle <opt> <df1> <hex1> <A<k>|D|S<target>> <df2> <hex2>` → `<docs>|<tfs>` drained from a block cursor opened on list 1, moved, then reset to list 2
+* `lazyseeks <opt> <doc_freq> <hex> <targets>` → the doc each `BlockSegmentPostings::seek` of the program lands on (lazy cursor model)
 * `tis_write <df:ps:pe:qs:qe;…>` → hex of the TermInfoStore bytes; `tis_get <hex> <ord>` → `df:ps:pe:qs:qe` | `err`
 * `numbits <n>`; `fn_to_id <n>`; `id_to_fn <i>`
 * `enc <opt> <docs> <tfs>` → hex of the term's postings bytes
@@ -204,6 +205,11 @@ def handle : List String → String
         showNatList r.1 ++ "|" ++ showNatList (if hasFreq o then r.2 else r.1.map (fun _ => 1))
       | none => "bad-op"
     | _, _, _, _, _ => "bad-op"
+  | ["lazyseeks", o, df, h, ts] =>
+    match parseOpt o, df.toNat?, natsOfHex h, natList ts with
+    | some o, some df, some b, some ts =>
+      showNatList (BlockPostings.seekAll cfg (BlockPostings.open cfg o o df b) ts)
+    | _, _, _, _ => "bad-op"
   | ["tis_write", infos] =>
     match (if infos == "-" then some [] else (infos.splitOn ";").mapM parseTermInfo) with
     | some tis => (hexOfNats (TermInfoStore.storeBytes TermInfoStore.BLOCK_LEN tis)).getD "bad-op"
